@@ -298,9 +298,42 @@ func (s *c06State) fullCompare(after string) {
 	}
 }
 
+// c06LiteralForms: monitor of the SQL front end's literal handling. Random members of the baseline literal class
+// (gen.BaselineLit) must be read back by the real parser as exactly the value written.
+func c06LiteralForms(r *rand.Rand, res *core.CaseResult, n int) {
+	alphabet := []string{"a", "b", "Z", "0", "9", " ", " ", "  ", "\t", "_", "-", ".", ",", ";", "(", ")", "=", "<", ">", "%", "\"", "select", "NULL", "and", "or", "日", "é", "x  y"}
+	for i := 0; i < n; i++ {
+		var c rm.Cell
+		switch r.Intn(4) {
+		case 0:
+			c = rm.Int(int32(r.Uint32() >> 1))
+		case 1:
+			c = rm.Float([]float32{float32(r.Intn(100000)) / 8, float32(r.Intn(1000)) * 1e-6, float32(r.Intn(1000)) * 1e6, r.Float32() * 1e20, float32(r.Intn(10))}[r.Intn(5)])
+		default:
+			var b strings.Builder
+			for k := r.Intn(8); k >= 0; k-- {
+				b.WriteString(alphabet[r.Intn(len(alphabet))])
+			}
+			c = rm.Str(b.String())
+		}
+		if !gen.BaselineLit(c) {
+			continue
+		}
+		res.Add("literal_forms_probed", 1)
+		if !gen.LitRoundTrips(c) {
+			lit, _ := c.SQLLit()
+			res.Violate("literal-misread", []string{"literal-forms"}, map[string]any{"literal": lit}, "the SQL front end does not read the literal %s back as the value written (%s)", lit, c.Canon())
+			return
+		}
+	}
+}
+
 func c06Run(env *core.Env, idx int) *core.CaseResult {
 	r := env.Rand(idx)
 	res := core.NewResult()
+	if idx%16 == 0 {
+		c06LiteralForms(r, res, 1500)
+	}
 	s := &c06State{env: env, r: r, res: res}
 	withID := r.Intn(6) != 0
 	cols := gen.Schema(r, withID, 2+r.Intn(4))
